@@ -1,0 +1,11 @@
+//go:build verif
+
+package sio
+
+import "github.com/karagenc/socket.io-go/internal/vhook"
+
+// Control of the verification hooks (build tag `verif` only).
+
+func VerifSetSink(f func(name string, kv []any)) { vhook.SetSink(f) }
+
+func VerifSetGate(f func(point string, key any)) { vhook.SetGate(f) }
